@@ -21,6 +21,7 @@ struct CbW { void operator()(WArg) const; };
 void use(HDI & d, HDX & x, VArg a, WArg w, CbV & cv, CbW & cw, HDX::Handle & h) {
 	x.appendListener(1, cv); x.appendListener(2, cw); x.prependListener(1, cv); x.insertListener(1, cv, h);
 	x.removeListener(1, h); x.hasAnyListener(1);
+	HDX e0; HDX e1(x); HDX e2(std::move(e1)); e0 = x; e0 = std::move(e2); e0.swap(e1);      // construction, assignment, swap
 	d.dispatch(a); d.dispatch(VArg()); d.dispatch(w); d.dispatch(WArg());
 	x.dispatch(1, a); x.dispatch(2, WArg());
 }
